@@ -94,7 +94,8 @@ where
     /// ```
     #[must_use]
     pub fn new(backend: WR) -> Self {
-        check_tables(WR::Word::BITS + 1);
+        // peek_bits() refills at most once: with an empty buffer it can return no more than a word
+        check_tables(WR::Word::BITS);
         Self {
             backend,
             buffer: BB::<WR>::ZERO,
